@@ -201,3 +201,30 @@ Proof.
   intros r n Hr. unfold is_idxs_of, GMr.prev_idxs_glob.
   apply (tie_prev_glob "-idx" ".pkl" "s" r n Hr); reflexivity.
 Qed.
+
+(* ------------------------------------------------------------------------------------------
+   The publication plan of the final round (Gen/GMr.final_publish, regenerated from
+   _FinalTreeMergingRound.__call__): every write goes to a "*.pkl.tmp" name (purged by the next
+   run), the names that become visible are exactly the writes of the model's final task, in the
+   same order, and the LAST action is the rename onto clusters.pkl.
+   ------------------------------------------------------------------------------------------ *)
+Definition pub_dsts (l : list GMr.pub_action) : list string :=
+  flat_map (fun a => match a with GMr.PR _ d => [d] | GMr.PW _ => [] end) l.
+Definition pub_ok (l : list GMr.pub_action) : bool :=
+  forallb (fun a => match a with
+                    | GMr.PW n => str_suffix ".pkl.tmp" n
+                    | GMr.PR s d => str_suffix ".pkl.tmp" s && existsb (fun b => match b with GMr.PW n => String.eqb n s | _ => false end) l
+                    end) l
+  && match rev l with GMr.PR _ d :: _ => String.eqb d "clusters.pkl" | _ => false end.
+
+Lemma tie_publish_ok : forall sc, pub_ok (GMr.final_publish sc) = true.
+Proof. intros [|]; vm_compute; reflexivity. Qed.
+
+Lemma tie_publish_names fexp c pairs ws :
+  final_task fexp c pairs = Some ws -> map fst ws = pub_dsts (GMr.final_publish (m_save_centroids c)).
+Proof.
+  unfold final_task. destruct (tree_cfg fexp c _) as [cf|]; [|discriminate].
+  destruct (fit_pairs fexp (init cf) pairs) as [st []]; try discriminate.
+  destruct (is_init st); [|discriminate].
+  destruct (m_save_centroids c); intros H; injection H as <-; reflexivity.
+Qed.
